@@ -332,6 +332,8 @@ func runC11(c *Ctx) {
 	checkCheckpointLookup(c, "R11l")
 	c.Rule("R11m", ruleTextExecOrderVocab, 3)
 	checkExecOrderVocab(c, "R11m")
+	c.Rule("R11o", ruleTextDirectiveAnyPrefix, 1)
+	checkDirectiveAnyPrefix(c, "R11o")
 	c.Rule("R11k", ruleTextNoStaleRevisions, 1)
 	checkNoStaleRevisions(c, "R11k")
 	c.Rule("R11j", ruleTextDirRestored, 1)
